@@ -12,6 +12,7 @@
   multiplied by `a`, `sum_sq` register by `a²` and the same count.
 -/
 import StatsCI.Lemmas.MeanSym
+import StatsCI.Lemmas.MeanLogScale
 
 namespace StatsCI.C16
 open StatsCI StatsCI.MeanLemmas NumOps Scalar
@@ -209,6 +210,28 @@ theorem perm_stats (xs ys : List ℝ) (h : xs.Perm ys) :
     (Arith.fromList (xs.map inj) : Arith Rex).variance =
       (Arith.fromList (ys.map inj) : Arith Rex).variance :=
   Arith.fromList_perm xs ys h
+
+/-! ### geometric and harmonic means under scaling (exact arithmetic) -/
+
+/-- multiplying positive data by `a > 0` multiplies every bound of the geometric interval by `a`
+    (`ln (a·x) = ln x + ln a`: a shift in log space, then `exp`) -/
+theorem geometric_scale (crit : Crit Rex) (conf : Confidence Rex) (xs : List ℝ)
+    (hpos : ∀ x ∈ xs, 0 < x) (a : ℝ) (ha : 0 < a) :
+    Geometric.ci crit conf ((xs.map (fun x => a * x)).map inj) =
+      (Geometric.ci crit conf (xs.map inj : List Rex)).map (Interval.map (smul a)) :=
+  Geometric.ci_scale_rex crit conf xs hpos a ha
+
+/-- and likewise of the harmonic interval (the reciprocals scale by `a⁻¹`) -/
+theorem harmonic_scale (crit : Crit Rex) (conf : Confidence Rex) (xs : List ℝ)
+    (hpos : ∀ x ∈ xs, 0 < x) (a : ℝ) (ha : 0 < a) :
+    Harmonic.ci crit conf ((xs.map (fun x => a * x)).map inj) =
+      (Harmonic.ci crit conf (xs.map inj : List Rex)).map (Interval.map (smul a)) :=
+  Harmonic.ci_scale_rex crit conf xs hpos a ha
+
+/-- non-vacuity: positive data, positive factor -/
+example : (∀ x ∈ [(1 : ℝ), 3], 0 < x) ∧ (0 : ℝ) < 2 := by
+  refine ⟨?_, by norm_num⟩
+  intro x hx; simp at hx; rcases hx with rfl | rfl <;> norm_num
 
 /-- non-vacuity: a non-trivial permutation -/
 example : [(1 : ℝ), 2, 3].Perm [3, 1, 2] :=
